@@ -119,6 +119,8 @@ def run_case(spec):
             return v.export()
         lib_stops = 0
         host_stops = 0
+        seen_calls = set()        # indices (in call order) of the calls at which a stop in library code was reported
+        effective_round = 0 if timing in ('before-start', 'after-load') else 1   # first load that the (latest) request must cover
         requested_late = False
         guard = 0
         while not S.exited and guard < 200:
@@ -157,28 +159,29 @@ def run_case(spec):
                     v.violation('c18:library-breakpoint-address-outside-function', 'a stop in library code is not inside the relocated range of the function',
                                 dict(ctx, pc=hex(pc), base=hex(base), sym=sym, lo=hex(lo), size=size))
                 hits = S.peek_u64(base + lsyms['ZQ_PLUG_HITS'][0])
-                call_no = expected_from + lib_stops           # 1-based number of the call we should be in
-                # the library's statics are fresh after every dlopen: the counter counts calls of the current load
-                exp_hits = call_no
-                if mode == 'dlopen':
-                    acc_calls = 0
-                    for rr in hside['rounds']:
-                        if call_no <= acc_calls + rr:
-                            exp_hits = call_no - acc_calls
-                            break
-                        acc_calls += rr
-                # at zq_plug_calc's breakpoint (prologue end) the counter is not bumped yet
-                if kind == 'fn-export':
-                    exp_hits -= 1
-                if hits != exp_hits:
-                    v.violation('c18:library-call-missed-or-duplicated', 'the library\'s own hit counter disagrees with the number of stops reported in it',
-                                dict(ctx, hits=hits, expected=exp_hits, lib_stops=lib_stops, first_expected_call=expected_from + 1))
                 a = S.cmd('arg', expr='x', mon=False)
                 vals = [scalar_of(e)[1] for e in (a.get('ok') or [])]
                 v.count('library_argument_reads')
-                if call_no - 1 < len(xs) and (not vals or vals[0] != xs[call_no - 1]):
-                    v.violation('c18:argument-read-in-library-wrong', 'an argument read at a stop in library code is not the value the host passed',
-                                dict(ctx, got=vals, expected=xs[call_no - 1], call=call_no))
+                # the argument identifies the call (the values the host passes are all different)
+                ci = xs.index(vals[0]) if vals and vals[0] in xs else None
+                if ci is None or ci in seen_calls:
+                    v.violation('c18:argument-read-in-library-wrong' if ci is None else 'c18:library-call-reported-twice',
+                                'an argument read at a stop in library code is not a value the host passed (or the same call was reported twice)',
+                                dict(ctx, got=vals, expected_one_of=xs[:8], lib_stops=lib_stops))
+                else:
+                    seen_calls.add(ci)
+                    # the library's statics are fresh after every load: its counter counts the calls of the current load
+                    acc_calls = 0
+                    within = ci + 1
+                    for rr in (hside['rounds'] if mode == 'dlopen' else [len(xs)]):
+                        if ci < acc_calls + rr:
+                            within = ci - acc_calls + 1
+                            break
+                        acc_calls += rr
+                    exp_hits = within - (1 if kind == 'fn-export' else 0)   # at zq_plug_calc's breakpoint the counter is not bumped yet
+                    if hits != exp_hits:
+                        v.violation('c18:library-hit-counter-differs', 'the library\'s own hit counter disagrees with the call at which the stop was reported',
+                                    dict(ctx, hits=hits, expected=exp_hits, call_index=ci))
                 bt = [(f.get('func') or '') for f in (S.cmd('backtrace', mon=False).get('ok') or [])]
                 chain = (['zq_inner'] if kind != 'fn-export' else []) + ['zq_plug_calc', 'call_plug', 'main']
                 pos = 0
@@ -207,12 +210,29 @@ def run_case(spec):
                             S.w.cmd('remove_num', num=b['num'])
             r = S.cmd('cont', timeout=TMO)
         if S.exited:
-            exp_stops = total - expected_from
             v.count('runs_completed')
-            if lib_stops != exp_stops:
-                v.violation(f'c18:library-stops-{"missing" if lib_stops < exp_stops else "extra"}:{timing}:{mode}',
-                            'the number of stops in library code differs from the number of calls made after the breakpoint was requested',
-                            dict(ctx, stops=lib_stops, expected=exp_stops, rounds=hside['rounds'], request=how))
+            expected_calls = set(range(expected_from, total))
+            missing = sorted(expected_calls - seen_calls)
+            extra = sorted(seen_calls - expected_calls)
+            if missing or extra:
+                def round_of(i):
+                    acc_ = 0
+                    for ri, rr in enumerate(hside['rounds']):
+                        if i < acc_ + rr:
+                            return ri
+                        acc_ += rr
+                    return len(hside['rounds'])
+                rounds_missing = sorted({round_of(i) for i in missing})
+                if extra:
+                    cls = 'extra'
+                elif mode == 'dlopen' and rounds_missing and min(rounds_missing) > effective_round:
+                    cls = 'missing:reload-without-new-request'      # the breakpoint worked for the load it was requested for, not after a later reload
+                else:
+                    cls = 'missing:first-load-after-request'
+                v.violation(f'c18:library-stops-{cls}:{mode}',
+                            'the stops in library code do not account for every call made after the breakpoint was requested',
+                            dict(ctx, missing_calls=missing, extra_calls=extra, rounds=hside['rounds'], rounds_missing=rounds_missing, request=how,
+                                 effective_from_load=effective_round))
             out, err = S.output(expect_stdout=native[0])
             code = (r.get('ok') or {}).get('code')
             if out != native[0] or code != native[2]:
